@@ -1065,10 +1065,26 @@ pub fn mem_churn_scenario(opts: ExecOpts, cycle_choices: &'static [u32]) -> Boxe
         any::<bool>(),     // concurrent traffic thread
         0u8..3,            // values left in the queue
         schedule(200),
+        prop_oneof![3 => Just(false), 1 => Just(true)], // every receiver gone: only senders churn
     )
-        .prop_map(move |(q, ci, rounds, early_drop, second, traffic, leftover, sched)| {
+        .prop_map(move |(q, ci, rounds, early_drop, second, traffic, leftover, sched, rx_gone)| {
             let c = cycle_choices[ci];
             let bcast = q.flavour == Flavour::Broadcast;
+            if rx_gone {
+                // the surviving sender keeps sending (and being refused as Disconnected) while
+                // senders are cloned and dropped: memory must still not grow
+                let mut main = vec![Op::TrySend { tx: 0 }, Op::UnsubRx { rx: 0 }];
+                let mut body: Vec<Op> = Vec::new();
+                for (k, _) in rounds.iter().enumerate() {
+                    body.push(Op::WithCloneTx { tx: 0, sends: (k % 2) as u8 });
+                }
+                body.push(Op::TrySend { tx: 0 });
+                main.push(Op::Repeat { times: 4 * c, body, sample_after: vec![c, 2 * c, 4 * c] });
+                let mut o = opts.clone();
+                o.max_steps = 2_000_000_000;
+                o.no_log = true;
+                return Scenario { q, progs: vec![Prog { ops: main, ret: false }], sched: Schedule::none(), opts: o };
+            }
             let mut main = Vec::new();
             if early_drop {
                 main.push(Op::WithCloneRx { rx: 0, unsub: false });
